@@ -6,7 +6,7 @@ from common import rng
 import cifdesc
 
 FAMILY = "cifio"
-HARNESS = {"source": "x_cifio.c"}
+HARNESS = {"source": "x_cifio.c", "leak_clean": True}
 RULE = "random CIF descriptions (<= 3 blocks, 1 level of frames, scalar and looped items, nested values); non-trivial = has a loop"
 
 
